@@ -90,7 +90,7 @@ structure TxRefines {τ ι} (T : TxM τ) (enqueue : τ → ι → τ) (pending :
     ∀ n, n ≤ (T.cur t).length → pending (T.advance t n) = (T.cur t).drop n ++ rest
   enqueue : ∀ t x, pending (enqueue t x) = pending t ++ enc x
 
-theorem txLoop_conserves {τ ι} {T : TxM τ} {enqueue : τ → ι → τ} {pending : τ → Bytes} {enc : ι → Bytes}
+theorem txLoop_conserves {τ ι : Type} {T : TxM τ} {enqueue : τ → ι → τ} {pending : τ → Bytes} {enc : ι → Bytes}
     (H : TxRefines T enqueue pending enc) :
     ∀ (fuel : Nat) (t : τ) (mb : Nat) (g : Option (List Nat)) (q : Bytes),
       ∃ w, (txLoop T fuel t mb g q).2 = q ++ w ∧ w ++ pending (txLoop T fuel t mb g q).1 = pending t := by
@@ -119,6 +119,68 @@ theorem txLoop_conserves {τ ι} {T : TxM τ} {enqueue : τ → ι → τ} {pend
             · rw [h1, List.append_assoc]
             · rw [List.append_assoc, h2, hsplit]
           · exact ⟨(T.cur (T.settle t).1).take n, rfl, hsplit⟩
+
+/-! ## a receiver alone, a sender alone: any list of calls -/
+
+theorem rxCalls_refines {σ υ ω : Type} {R : RxM σ υ} {step : σ → UInt8 → σ × List ω} {proj : List υ → List ω}
+    {Inv : σ → Prop} {ok : UInt8 → Prop} (H : RxRefines R step proj Inv ok) :
+    ∀ (cs : List Call) (s : σ) (q : Bytes) (acc : List υ), Inv s → (∀ b ∈ q, ok b) →
+      ∃ x, q = x ++ (rxCalls R s cs q acc).2.1 ∧ (rxCalls R s cs q acc).1 = (feedBy step s x).1 ∧
+        proj (rxCalls R s cs q acc).2.2 = proj acc ++ (feedBy step s x).2 := by
+  intro cs
+  induction cs with
+  | nil => intro s q acc _ _; exact ⟨[], by simp [rxCalls, feedBy]⟩
+  | cons c cs ih =>
+    intro s q acc hi hq
+    obtain ⟨x, h1, h2, h3, h4⟩ := rxCall_refines H s c q hi hq
+    have hq2 : ∀ b ∈ (rxCall R s c q).2.1, ok b := fun b hb => hq b (by rw [h1]; simp [hb])
+    obtain ⟨y, e1, e2, e3⟩ := ih (rxCall R s c q).1 (rxCall R s c q).2.1 (acc ++ (rxCall R s c q).2.2) h4 hq2
+    refine ⟨x ++ y, ?_, ?_, ?_⟩
+    · simp only [rxCalls]; rw [List.append_assoc, ← e1, ← h1]
+    · simp only [rxCalls]; rw [e2, feedBy_append, h2]
+    · simp only [rxCalls]; rw [e3, feedBy_append, H.proj_append, h3, h2, List.append_assoc]
+
+/-- **Input: any chunking gives the same result.**  Whatever the list of `DoInput` calls (number of calls, `maxBytes`,
+    bytes returned by each `Read`, would-blocks), once the transport is empty the receiver is in the state, and has
+    delivered the units, that feeding the whole byte string byte by byte gives: a function of the bytes alone. -/
+theorem input_any_chunking {σ υ ω : Type} {R : RxM σ υ} {step : σ → UInt8 → σ × List ω} {proj : List υ → List ω}
+    {Inv : σ → Prop} {ok : UInt8 → Prop} (H : RxRefines R step proj Inv ok)
+    (cs : List Call) (s : σ) (q : Bytes) (hi : Inv s) (hq : ∀ b ∈ q, ok b) (hall : (rxCalls R s cs q []).2.1 = []) :
+    (rxCalls R s cs q []).1 = (feedBy step s q).1 ∧ proj (rxCalls R s cs q []).2.2 = (feedBy step s q).2 := by
+  obtain ⟨x, h1, h2, h3⟩ := rxCalls_refines H cs s q [] hi hq
+  rw [hall, List.append_nil] at h1
+  subst h1
+  exact ⟨h2, by rw [h3, H.proj_nil]; simp⟩
+
+theorem txCalls_conserves {τ ι : Type} {T : TxM τ} {enqueue : τ → ι → τ} {pending : τ → Bytes} {enc : ι → Bytes}
+    (H : TxRefines T enqueue pending enc) (fuel : τ → Call → Nat) :
+    ∀ (cs : List Call) (t : τ) (q : Bytes),
+      ∃ w, (txCalls T fuel t cs q).2 = q ++ w ∧ w ++ pending (txCalls T fuel t cs q).1 = pending t := by
+  intro cs
+  induction cs with
+  | nil => intro t q; exact ⟨[], by simp [txCalls]⟩
+  | cons c cs ih =>
+    intro t q
+    obtain ⟨w, h1, h2⟩ := txLoop_conserves H (fuel t c) t c.maxBytes c.grants q
+    obtain ⟨v, e1, e2⟩ := ih (txLoop T (fuel t c) t c.maxBytes c.grants q).1 (txLoop T (fuel t c) t c.maxBytes c.grants q).2
+    refine ⟨w ++ v, ?_, ?_⟩
+    · simp only [txCalls]; rw [e1, h1, List.append_assoc]
+    · simp only [txCalls]; rw [List.append_assoc, e2, h2]
+
+/-- **Output: any short-write schedule emits the same bytes.**  Whatever the list of `DoOutput` calls (`maxBytes`,
+    bytes accepted by each `Write`, would-blocks), what has been written is a prefix of the pending bytes, and once
+    nothing is pending it is exactly them. -/
+theorem output_any_schedule {τ ι : Type} {T : TxM τ} {enqueue : τ → ι → τ} {pending : τ → Bytes} {enc : ι → Bytes}
+    (H : TxRefines T enqueue pending enc) (fuel : τ → Call → Nat) (cs : List Call) (t : τ) :
+    (∃ rest, pending t = (txCalls T fuel t cs []).2 ++ rest) ∧
+    (pending (txCalls T fuel t cs []).1 = [] → (txCalls T fuel t cs []).2 = pending t) := by
+  obtain ⟨w, h1, h2⟩ := txCalls_conserves H fuel cs t []
+  simp only [List.nil_append] at h1
+  constructor
+  · exact ⟨pending (txCalls T fuel t cs []).1, by rw [h1, h2]⟩
+  · intro hp
+    rw [hp, List.append_nil] at h2
+    rw [h1, h2]
 
 /-! ## the system -/
 
@@ -157,29 +219,35 @@ theorem streamOf_ok {ι} (enc : ι → Bytes) (ok : UInt8 → Prop) (hok : ∀ x
     every byte of their encoding is consumed, in transit or pending, in this order; the receiver is
     where feeding the consumed prefix byte by byte leads, and has delivered what that delivers -/
 def Good {τ σ ι υ ω : Type} (_G : Gw τ σ ι υ) (step : σ → UInt8 → σ × List ω) (proj : List υ → List ω) (Inv : σ → Prop)
-    (pending : τ → Bytes) (enc : ι → Bytes) (r0 : σ) (s : Sys τ σ υ) (us : List ι) : Prop :=
+    (ok : UInt8 → Prop) (pending : τ → Bytes) (enc : ι → Bytes) (r0 : σ) (s : Sys τ σ υ) (us : List ι) : Prop :=
   ∃ consumed, streamOf enc us = consumed ++ (s.q ++ pending s.t) ∧
-    s.r = (feedBy step r0 consumed).1 ∧ proj s.out = (feedBy step r0 consumed).2 ∧ Inv s.r
+    s.r = (feedBy step r0 consumed).1 ∧ proj s.out = (feedBy step r0 consumed).2 ∧ Inv s.r ∧
+    (∀ b ∈ streamOf enc us, ok b)
 
 theorem step_good {τ σ ι υ ω : Type} {G : Gw τ σ ι υ} {step : σ → UInt8 → σ × List ω} {proj : List υ → List ω}
     {Inv : σ → Prop} {ok : UInt8 → Prop} {pending : τ → Bytes} {enc : ι → Bytes}
-    (HR : RxRefines G.rx step proj Inv ok) (HT : TxRefines G.tx G.enqueue pending enc) (hok : ∀ x b, b ∈ enc x → ok b)
-    (r0 : σ) (s : Sys τ σ υ) (us : List ι) (e : Ev ι) (h : Good G step proj Inv pending enc r0 s us) :
-    Good G step proj Inv pending enc r0 (stepSys G s e) (us ++ addsOf [e]) := by
-  obtain ⟨consumed, h1, h2, h3, h4⟩ := h
+    (HR : RxRefines G.rx step proj Inv ok) (HT : TxRefines G.tx G.enqueue pending enc)
+    (r0 : σ) (s : Sys τ σ υ) (us : List ι) (e : Ev ι) (hok : ∀ x ∈ addsOf [e], ∀ b ∈ enc x, ok b)
+    (h : Good G step proj Inv ok pending enc r0 s us) :
+    Good G step proj Inv ok pending enc r0 (stepSys G s e) (us ++ addsOf [e]) := by
+  obtain ⟨consumed, h1, h2, h3, h4, h5⟩ := h
   cases e with
   | add x =>
-    refine ⟨consumed, ?_, h2, h3, h4⟩
-    simp only [stepSys, addsOf, streamOf_append, streamOf, List.append_nil, h1, HT.enqueue, List.append_assoc]
+    refine ⟨consumed, ?_, h2, h3, h4, ?_⟩
+    · simp only [stepSys, addsOf, streamOf_append, streamOf, List.append_nil, h1, HT.enqueue, List.append_assoc]
+    · intro b hb
+      simp only [addsOf, streamOf_append, streamOf, List.append_nil, List.mem_append] at hb
+      rcases hb with hb | hb
+      · exact h5 b hb
+      · exact hok x (by simp [addsOf]) b hb
   | output c =>
     obtain ⟨w, e1, e2⟩ := txLoop_conserves HT (G.txFuel s.t c) s.t c.maxBytes c.grants s.q
-    refine ⟨consumed, ?_, h2, h3, h4⟩
+    refine ⟨consumed, ?_, h2, h3, h4, by simpa [addsOf] using h5⟩
     simp only [stepSys, addsOf, List.append_nil, h1, e1, List.append_assoc, e2]
   | input c =>
-    have hstream := streamOf_ok enc ok hok us
-    have hq : ∀ b ∈ s.q, ok b := fun b hb => hstream b (by rw [h1]; simp [hb])
+    have hq : ∀ b ∈ s.q, ok b := fun b hb => h5 b (by rw [h1]; simp [hb])
     obtain ⟨x, e1, e2, e3, e4⟩ := rxCall_refines HR s.r c s.q h4 hq
-    refine ⟨consumed ++ x, ?_, ?_, ?_, e4⟩
+    refine ⟨consumed ++ x, ?_, ?_, ?_, e4, by simpa [addsOf] using h5⟩
     · simp only [stepSys, addsOf, List.append_nil, h1, List.append_assoc]
       rw [← List.append_assoc x, ← e1]
     · simp only [stepSys]; rw [e2, feedBy_append, h2]
@@ -187,15 +255,20 @@ theorem step_good {τ σ ι υ ω : Type} {G : Gw τ σ ι υ} {step : σ → UI
 
 theorem run_good {τ σ ι υ ω : Type} {G : Gw τ σ ι υ} {step : σ → UInt8 → σ × List ω} {proj : List υ → List ω}
     {Inv : σ → Prop} {ok : UInt8 → Prop} {pending : τ → Bytes} {enc : ι → Bytes}
-    (HR : RxRefines G.rx step proj Inv ok) (HT : TxRefines G.tx G.enqueue pending enc) (hok : ∀ x b, b ∈ enc x → ok b)
-    (r0 : σ) (evs : List (Ev ι)) (s : Sys τ σ υ) (us : List ι) (h : Good G step proj Inv pending enc r0 s us) :
-    Good G step proj Inv pending enc r0 (run G s evs) (us ++ addsOf evs) := by
+    (HR : RxRefines G.rx step proj Inv ok) (HT : TxRefines G.tx G.enqueue pending enc)
+    (r0 : σ) (evs : List (Ev ι)) (hok : ∀ x ∈ addsOf evs, ∀ b ∈ enc x, ok b) (s : Sys τ σ υ) (us : List ι)
+    (h : Good G step proj Inv ok pending enc r0 s us) :
+    Good G step proj Inv ok pending enc r0 (run G s evs) (us ++ addsOf evs) := by
   induction evs generalizing s us with
   | nil => simpa [run, addsOf] using h
   | cons e r ih =>
-    have := ih (stepSys G s e) (us ++ addsOf [e]) (step_good HR HT hok r0 s us e h)
+    have hsplit : addsOf (e :: r) = addsOf [e] ++ addsOf r := by
+      rw [← addsOf_append]; rfl
+    have h1 : ∀ x ∈ addsOf [e], ∀ b ∈ enc x, ok b := fun x hx => hok x (by rw [hsplit]; simp [hx])
+    have h2 : ∀ x ∈ addsOf r, ∀ b ∈ enc x, ok b := fun x hx => hok x (by rw [hsplit]; simp [hx])
+    have := ih h2 (stepSys G s e) (us ++ addsOf [e]) (step_good HR HT r0 s us e h1 h)
     have e2 : us ++ addsOf (e :: r) = us ++ addsOf [e] ++ addsOf r := by
-      rw [List.append_assoc, ← addsOf_append]; rfl
+      rw [List.append_assoc, hsplit]
     rw [e2]
     simpa [run] using this
 
@@ -205,24 +278,24 @@ theorem run_good {τ σ ι υ ω : Type} {G : Gw τ σ ι υ} {step : σ → UIn
     link is drained (nothing in transit, nothing pending) they are exactly what the whole stream delivers. -/
 theorem deliveries_are_prefix_fn {τ σ ι υ ω : Type} {G : Gw τ σ ι υ} {step : σ → UInt8 → σ × List ω} {proj : List υ → List ω}
     {Inv : σ → Prop} {ok : UInt8 → Prop} {pending : τ → Bytes} {enc : ι → Bytes}
-    (HR : RxRefines G.rx step proj Inv ok) (HT : TxRefines G.tx G.enqueue pending enc) (hok : ∀ x b, b ∈ enc x → ok b)
-    (t0 : τ) (r0 : σ) (h0 : pending t0 = []) (hi : Inv r0) (evs : List (Ev ι)) :
+    (HR : RxRefines G.rx step proj Inv ok) (HT : TxRefines G.tx G.enqueue pending enc)
+    (t0 : τ) (r0 : σ) (h0 : pending t0 = []) (hi : Inv r0) (evs : List (Ev ι)) (hok : ∀ x ∈ addsOf evs, ∀ b ∈ enc x, ok b) :
     let s := run G { t := t0, q := [], r := r0, out := [] } evs
     ∃ consumed, streamOf enc (addsOf evs) = consumed ++ (s.q ++ pending s.t) ∧
       s.r = (feedBy step r0 consumed).1 ∧ proj s.out = (feedBy step r0 consumed).2 := by
-  have h : Good G step proj Inv pending enc r0 { t := t0, q := [], r := r0, out := [] } [] :=
-    ⟨[], by simp [streamOf, h0], by simp [feedBy], by simp [feedBy, HR.proj_nil], hi⟩
-  obtain ⟨c, h1, h2, h3, _⟩ := run_good HR HT hok r0 evs _ [] h
+  have h : Good G step proj Inv ok pending enc r0 { t := t0, q := [], r := r0, out := [] } [] :=
+    ⟨[], by simp [streamOf, h0], by simp [feedBy], by simp [feedBy, HR.proj_nil], hi, by intro b hb; simp [streamOf] at hb⟩
+  obtain ⟨c, h1, h2, h3, _⟩ := run_good HR HT r0 evs hok _ [] h
   exact ⟨c, by simpa using h1, h2, h3⟩
 
 theorem drained_delivers_all {τ σ ι υ ω : Type} {G : Gw τ σ ι υ} {step : σ → UInt8 → σ × List ω} {proj : List υ → List ω}
     {Inv : σ → Prop} {ok : UInt8 → Prop} {pending : τ → Bytes} {enc : ι → Bytes}
-    (HR : RxRefines G.rx step proj Inv ok) (HT : TxRefines G.tx G.enqueue pending enc) (hok : ∀ x b, b ∈ enc x → ok b)
-    (t0 : τ) (r0 : σ) (h0 : pending t0 = []) (hi : Inv r0) (evs : List (Ev ι))
+    (HR : RxRefines G.rx step proj Inv ok) (HT : TxRefines G.tx G.enqueue pending enc)
+    (t0 : τ) (r0 : σ) (h0 : pending t0 = []) (hi : Inv r0) (evs : List (Ev ι)) (hok : ∀ x ∈ addsOf evs, ∀ b ∈ enc x, ok b)
     (hq : (run G { t := t0, q := [], r := r0, out := [] } evs).q = [])
     (hp : pending (run G { t := t0, q := [], r := r0, out := [] } evs).t = []) :
     proj (run G { t := t0, q := [], r := r0, out := [] } evs).out = (feedBy step r0 (streamOf enc (addsOf evs))).2 := by
-  obtain ⟨c, h1, _, h3⟩ := deliveries_are_prefix_fn HR HT hok t0 r0 h0 hi evs
+  obtain ⟨c, h1, _, h3⟩ := deliveries_are_prefix_fn HR HT t0 r0 h0 hi evs hok
   rw [hq, hp] at h1
   simp at h1
   rw [h3, h1]
